@@ -550,6 +550,27 @@ def mode_threads(payload):
     return {'rounds': rounds}
 
 
+def mode_batch(payload):
+    """a long sequential batch: the programs are handled one after the other, each from load to
+    end, and every document is DROPPED (del + gc.collect()) before the next is loaded - later
+    documents are allocated where earlier ones lived.  order = indices into progs."""
+    import gc
+    progs = payload['progs']
+    g0 = global_digest()
+    out = []
+    for j in payload['order']:
+        st = DocState(progs[j])
+        rs = []
+        for _ in st.prog['steps']:
+            o = run_step(st)
+            rs.append({'digest': obs_digest(o), 'obs': o})
+        out.append({'prog': j, 'steps': rs})
+        st.doc = None
+        del st
+        gc.collect()
+    return {'instances': out, 'globals': [[g0, global_digest()]]}
+
+
 def mode_gated(payload):
     """progs[0] (and, with parked=2, then progs[1]) are parked at an I/O point of their step
     gate_step[i]; while they are parked INSIDE those operations every other program runs from load
@@ -636,6 +657,8 @@ def _dispatch(mode, payload):
         res = mode_threads(payload)
     elif mode == 'gated':
         res = mode_gated(payload)
+    elif mode == 'batch':
+        res = mode_batch(payload)
     else:
         raise ValueError(mode)
     return res
